@@ -55,6 +55,8 @@ FLOORS = {"quick": {"evaluations": 2500, "onboard_carried_out": 30, "onboard_ref
 EXHAUSTIVE = {"quick": False, "thorough": True}
 
 PINS = {"valid": "abcd1234", "valid2": "Zz345678", "short": "abc1234", "long": "abcd12345",
+        # compliant PINs in which characters repeat (each goes to its own position)
+        "repeats": "aabbccd1", "repeats-alternating": "1a2a3a4a",
         "digits": "12345678", "symbol": "abcd123!", "empty": "", "space": "abcd 123",
         # eight BYTES once encoded, each of which is a Latin-1 letter or digit, but not
         # eight alphanumerics: accented letter (2 bytes), full-width digit (3 bytes),
